@@ -294,7 +294,7 @@ class C19:
             t = time.time()
             kre = re.compile(r'Kissel|Photo_Total|Photo_Partial|^ElectronConfig$|^P[LM]\d_')
             kl = [l for l in lines if kre.search(l.split(' ')[0])]
-            for kind in (('real', 'synth') if ctx.tier == 'thorough' else ('real',) if ctx.seed % 2 else ('synth',)):
+            for kind in (('real', 'synth') if ctx.tier == 'thorough' else ('real',)):      # the regenerated table is the configuration the property names: always run
                 bk = self.build_kissel(ctx, kind)
                 ck, jk = self.two_way(bk, kl, 5000)
                 for l, ca, ja in zip(kl, ck, jk): account(l, ca, ja, '@kissel' if kind == 'synth' else '@kissel-real')
